@@ -14,10 +14,12 @@ import (
 // ---- conversion lemma: convertReflectValueToType over a type pool
 
 var zzTargetNames = []string{"int8", "int16", "int32", "int64", "int", "uint8", "uint16", "uint32", "uint64", "float32", "float64",
-	"string", "bool", "interface{}", "[]int64", "[]string", "[]interface{}", "map[string]int64", "*int64", "[]byte"}
+	"string", "bool", "interface{}", "[]int64", "[]string", "[]interface{}", "map[string]int64", "*int64", "[]byte", "[3]int64"}
 
 func zzTargetType(i int) reflect.Type {
 	switch zzTargetNames[i] {
+	case "[3]int64":
+		return reflect.TypeOf([3]int64{})
 	case "int8":
 		return reflect.TypeOf(int8(0))
 	case "int16":
@@ -236,6 +238,12 @@ func ZZ_C11_convert_table() {
 		{"map with bool key->map[string]int64 fails", map[interface{}]interface{}{true: i64}, targets("map[string]int64"), false, nil},
 		{"int64->interface{} unchanged", i64, targets("interface{}"), true, func(rv reflect.Value) bool { return rv.Kind() == reflect.Int64 && rv.Int() == i64 }},
 		{"string->string", "s", targets("string"), true, func(rv reflect.Value) bool { return rv.String() == "s" }},
+		{"3-element slice->[3]int64 element-wise", []interface{}{i64, int64(2), 3.5}, targets("[3]int64"), true, func(rv reflect.Value) bool {
+			return rv.Len() == 3 && rv.Index(0).Int() == i64 && rv.Index(1).Int() == 2 && rv.Index(2).Int() == 3
+		}},
+		{"5-element slice->[3]int64 fails", []interface{}{i64, int64(2), int64(3), int64(4), int64(5)}, targets("[3]int64"), false, nil},
+		{"5-element []int64->[3]int64 fails", []int64{i64, 2, 3, 4, 5}, targets("[3]int64"), false, nil},
+		{"string->[3]int64 fails", "abc", targets("[3]int64"), false, nil},
 	}
 	r := rows[zz.Choose(len(rows))]
 	var src reflect.Value
@@ -536,7 +544,22 @@ func ZZ_C11_callbacks() {
 	e.Define("applyVoid", func(f func()) { f() })
 	var seen int64
 	e.Define("see", func(v int64) { seen = v })
-	switch zz.Choose(10) {
+	switch zz.Choose(14) {
+	case 10:
+		// a variadic script function receives the arguments Go passes as its list
+		_, err := Execute(e, nil, "apply2(func(a...) { return a[0] - a[1] })")
+		zz.Assert(err == nil && zzSameFloat(gotF, float64(x-y)), "C11.callback/variadic-script-function-receives-the-arguments")
+	case 11:
+		_, err := Execute(e, nil, "apply2(func(a, b...) { return a - b[0] })")
+		zz.Assert(err == nil && zzSameFloat(gotF, float64(x-y)), "C11.callback/variadic-script-function-receives-the-arguments")
+	case 12:
+		r, err := Execute(e, nil, "apply(func(a...) { return a[0] + 1 })")
+		ri, ok := r.(int64)
+		zz.Assert(err == nil && ok && ri == x+1, "C11.callback/variadic-script-function-receives-the-arguments")
+	case 13:
+		// a callback of the wrong arity is an error of the call, not a crash
+		_, err := Execute(e, nil, "apply2(func(a) { return a })")
+		zz.Assert(err != nil, "C11.callback/wrong-arity-is-error")
 	case 7:
 		_, err := Execute(e, nil, "applyVoid(func() { throw \"inside\" })")
 		zz.Assert(err != nil, "C11.callback/error-inside-a-callback-without-results-surfaces")
